@@ -162,6 +162,19 @@ func (s *c19Subject) reusedCollection(k int, want string) *evid.Fail {
 			if run("holding later entries of the same names in upper case") {
 				run("holding later entries of the same names in upper case, evaluated again")
 			}
+			// a function collection of the caller's that lacks what the expression calls: evaluation reports that (or
+			// whatever fails first) and leaves the caller's collection as it was
+			ownFuncs := functions.NewFunctionCollection()
+			ownFuncs.Add(tupFunction("OnlyThisOne"))
+			s.calc.EvaluateUsingVariablesAndFunctions(makeVars(bs), ownFuncs)
+			if ownFuncs.Length() != 1 || ownFuncs.Get(0).Name() != "OnlyThisOne" {
+				var names []string
+				for _, f := range ownFuncs.GetAll() {
+					names = append(names, f.Name())
+				}
+				res = evid.F("impure:callers-function-collection-modified", "expression %q: after an evaluation the caller's function collection, which held one function, holds %v", s.c.Text, names)
+				return
+			}
 			// separate instances built from one token list of the caller's (the list this instance reports, blanks and
 			// comments included), one after the other: each evaluates like the instance the list came from
 			list := s.calc.OriginalTokens()
